@@ -529,7 +529,21 @@ def expand_fn(fs, assumed_override=False, notes=None):
                     blines[li] = '%s{ let verif_tail = %s;\n%s\n%sreturn verif_tail; }' % (ind, ex, block, ind)
                     deltas.append(dict(rule='Rtail', original=st, rewritten='{ let verif_tail = %s; <ghost> return verif_tail; }' % ex))
                     continue
-                if st.endswith(';') or st.endswith('{') or st.endswith(','):
+                if st.endswith('{') or st.endswith('('):
+                    # multi-line tail expression: it runs to the end of the function body
+                    last = len(blines) - 1
+                    while last > li and blines[last].strip() in ('', '}'):
+                        last -= 1
+                    # blines[-1] holds the closing brace of the fn; everything from li..last is the expression
+                    expr = '\n'.join(blines[li:last + 1])
+                    if blines[last + 1:] and ''.join(x.strip() for x in blines[last + 1:]) != '}':
+                        raise AssembleError('%s: //@tail `%s`: cannot delimit the multi-line tail expression' % (where, arg))
+                    blines[li] = '%slet verif_tail = %s;\n%s\n%sverif_tail' % (ind, expr.strip(), block, ind)
+                    for q in range(li + 1, last + 1):
+                        blines[q] = ''
+                    deltas.append(dict(rule='Rtail', original=expr.strip()[:80] + ' ...', rewritten='let verif_tail = <that expression>; <ghost> verif_tail'))
+                    continue
+                if st.endswith(';') or st.endswith(','):
                     raise AssembleError('%s: //@tail `%s` is not a single-line tail expression' % (where, arg))
                 blines[li] = '%slet verif_tail = %s;\n%s\n%sverif_tail' % (ind, st, block, ind)
                 deltas.append(dict(rule='Rtail', original=st, rewritten='let verif_tail = %s; <ghost> verif_tail' % st))
